@@ -8,12 +8,14 @@ LEVEL = "exploration"
 RULE = ("(i) direct: AdbMessage(cmd,arg0,arg1,payload).pack()/unpack()/checksum() for all 7 commands x boundary+random 32-bit args x payload classes, "
         "decoded by an independent struct/byte-sum decoder; (ii) stream: random operation scenarios (all ten APIs, both implementations, all maxdata values) "
         "whose complete bulk_write byte stream is parsed by the independent StreamParser (24-byte LE header, known command, magic == ~command, "
-        "exactly data_length payload bytes, data_check == byte sum mod 2^32, no trailing partial message); (iii) big: payloads whose byte sum exceeds 2^32. "
+        "exactly data_length payload bytes, data_check == byte sum mod 2^32, no trailing partial message); (iii) big: payloads whose byte sum exceeds 2^32; "
+        "(iv) threads: 2-3 concurrent operations under the controlled scheduler (yield at every transport call, lock operation and source line), where a header and its "
+        "payload can be torn apart by another sender unless the transport lock covers both writes. "
         "non-trivial = at least one message with a non-empty payload parsed; distinct = distinct (kind, command, payload-size bucket, arg class) / scenario signatures")
 ASSUMPTIONS = ["the command words and the header layout written out in vlib/wire.py (from AOSP adb.h / protocol.txt) are the protocol's"]
 SHARDS = {"quick": 8, "thorough": 16}
 TIME_BUDGET = {"quick": 60, "thorough": 600}
-FLOORS = {"quick": {"sum_exceeds_2_32": 1, "messages_parsed": 3000, "stream_messages": 1500, "distinct": 40}, "thorough": {"messages_parsed": 30000, "stream_messages": 15000, "distinct": 60}}
+FLOORS = {"quick": {"concurrent_schedules": 200, "sum_exceeds_2_32": 1, "messages_parsed": 3000, "stream_messages": 1500, "distinct": 40}, "thorough": {"messages_parsed": 30000, "stream_messages": 15000, "distinct": 60}}
 
 ARGS = [0, 1, 2, 0x7FFFFFFF, 0x80000000, 0xFFFFFFFE, 0xFFFFFFFF]
 CMDS = ["AUTH", "CLSE", "CNXN", "OKAY", "OPEN", "SYNC", "WRTE"]
@@ -32,6 +34,9 @@ def gen_cases(tier, seed):
         yield {"kind": "big", "size": 33 * (1 << 20), "byte": 0xFF}   # > 2 * 2^32
     for i in range(nm):
         yield {"kind": "mix", "seed": "%d:%d" % (seed, i), "impl": ("sync", "async")[i % 2]}
+    # (iii) header and payload are two transport writes: only concurrent senders can tear a message apart
+    for i in range(300 if tier == "quick" else 6000):
+        yield {"kind": "threads", "seed": "%d:t%d" % (seed, i), "impl": "async" if i % 4 == 0 else "sync"}
 
 
 def payload_for(rng):
@@ -127,6 +132,32 @@ def run_case(case):
         stats["sum_exceeds_2_32"] = int(case["byte"] * case["size"] >= (1 << 32))
         return {"sig": "big|%d|%d" % (case["size"], case["byte"]), "violations": viol[:5], "stats": stats,
                 "sample": {"kind": "big", "size": case["size"], "byte": case["byte"], "raw_sum": case["byte"] * case["size"]}, "evaluations": 2}
+    if case["kind"] == "threads":
+        from vlib import sched
+        from checks import c06
+        rng = gen.rng_for("C02t", case["seed"])
+        steps = []
+        k = 0
+        for a in range(rng.choice([2, 3])):
+            mine = []
+            for _ in range(rng.choice([1, 2])):
+                mine.append(rng.choice(c06.POOL)(k))
+                k += 1
+            steps.append(mine)
+        lp = rng.choice([0.0, 0.1, 0.3]) if case["impl"] == "sync" else 0.0
+        strat = sched.RandomWalk(case["seed"], stay=rng.choice([0.2, 0.5, 0.8]), line_prob=lp)
+        res = c06.run_schedule(case["impl"], steps, strat, line=lp > 0)
+        for v in res["viol"]:
+            if v["mechanism"].startswith("monitor:C02") or v["mechanism"] == "transport-call-without-lock":
+                viol.append({"mechanism": "concurrent-" + v["mechanism"], "detail": v["detail"]})
+        if res.get("framing_error") and not viol:
+            viol.append({"mechanism": "concurrent-framing", "detail": res["framing_error"]})
+        stats["messages_parsed"] += res.get("host_packets", 0)
+        stats["stream_messages"] += res.get("host_packets", 0)
+        stats["concurrent_schedules"] = 1
+        stats["concurrent_switches"] = res["switches"]
+        return {"sig": "threads|%s|%s" % (case["impl"], hash(res["trace"])) if res["switches"] else None, "violations": viol[:3], "stats": stats,
+                "sample": {"kind": "threads", "actors": [[s_["op"] for s_ in a] for a in steps], "switches": res["switches"], "host_packets": res.get("host_packets")} if case["seed"].endswith("t3") else None}
     # mix
     rng = gen.rng_for("C02m", case["seed"])
     sc = scen.gen_scenario(rng, big=rng.random() < 0.1)
